@@ -170,6 +170,22 @@ func init() {
 	intrinsics["(*sync/atomic.Value).Load"] = func(in *Interp, fn *ssa.Function, a []Value) Value {
 		return in.load(a[0].(Ptr).Extend(Sel{Field: 0}))
 	}
+	// context: one opaque context per run; Done() is a channel that never becomes ready unless
+	// the harness asks for nondeterministic cancellation (//verif:ctx nondet).
+	ctxBg := func(in *Interp, fn *ssa.Function, a []Value) Value { return in.opaqueCtx("background") }
+	intrinsics["context.Background"] = ctxBg
+	intrinsics["context.TODO"] = ctxBg
+	withCancel := func(in *Interp, fn *ssa.Function, a []Value) Value {
+		parent := a[0]
+		if p, ok := parent.(Iface); ok && p.T == nil {
+			parent = in.opaqueCtx("background")
+		}
+		return Tuple{parent, Func{Noop: true}}
+	}
+	intrinsics["context.WithCancel"] = withCancel
+	intrinsics["context.WithTimeout"] = withCancel
+	intrinsics["context.WithDeadline"] = withCancel
+	intrinsics["context.WithValue"] = func(in *Interp, fn *ssa.Function, a []Value) Value { return a[0] }
 	intrinsics["sort.Slice"] = sortSlice
 	intrinsics["sort.SliceStable"] = sortSlice
 }
@@ -524,3 +540,51 @@ func (in *Interp) callerSite() string {
 
 var _ = big.NewInt
 var _ = strings.HasPrefix
+
+var opaqueCtxType = types.NewNamed(types.NewTypeName(0, nil, "verifOpaqueContext", nil), types.NewStruct(nil, nil), nil)
+
+func (in *Interp) opaqueCtx(kind string) Value {
+	key := "ctx|" + kind
+	if v, ok := in.attrMemo[key]; ok {
+		return v
+	}
+	in.opaqueSeq++
+	v := Iface{T: opaqueCtxType, V: Opaque{ID: in.opaqueSeq, Kind: "context"}}
+	in.attrMemo[key] = v
+	return v
+}
+
+// ctxMethod implements context.Context methods on the opaque context.
+func (in *Interp) ctxMethod(op Opaque, name string, rt types.Type) (Value, bool) {
+	key := fmt.Sprintf("ctxdone|%d", op.ID)
+	getCh := func() ChanV {
+		if v, ok := in.attrMemo[key]; ok {
+			return v.(ChanV)
+		}
+		obj := in.newObj(&chanState{nondet: true}, nil)
+		ch := ChanV{Obj: obj}
+		in.attrMemo[key] = ch
+		return ch
+	}
+	switch name {
+	case "Done":
+		return getCh(), true
+	case "Err":
+		ch := getCh()
+		st := in.chanState(ch)
+		if st.nondet && !st.closed && in.Cfg.CtxPolicy == "nondet" {
+			if in.choose(2) == 1 {
+				st.closed = true
+			}
+		}
+		if st.closed {
+			return in.newOpaqueErr("context canceled"), true
+		}
+		return Iface{}, true
+	case "Deadline":
+		return in.zero(rt), true
+	case "Value":
+		return Iface{}, true
+	}
+	return nil, false
+}
